@@ -197,10 +197,72 @@ def s13_generated(ctx):
     return res
 
 
-STREAMS = [s13_histories, s13_generated]
+CHOSEN = [
+    ("type+vnode", ["GeomTypeValidator", "VNodeValidator"]),
+    ("null+type+nodes", ["GeomNullValidator", "GeomTypeValidator", "MultiJunctionValidator", "VNodeValidator"]),
+    ("type+junction", ["GeomTypeValidator", "MultiJunctionValidator"]),
+    ("nodes only", ["MultiJunctionValidator", "VNodeValidator"]),
+    ("type+snap", ["GeomTypeValidator", "UnderlappingSnapValidator", "StackedTracesValidator", "MultipleCrosscutValidator"]),
+]
+
+
+def chosen_case(arg):
+    """frame i validated with a chosen validator subset (allow_fix), then its OUTPUT validated again with the same subset, then the first object re-run:
+    returns the three canonical results"""
+    i, names = arg
+    import_fractopo()
+    from fractopo.tval import trace_validators as tv
+    from fractopo.tval.trace_validation import Validation
+
+    chosen = tuple(getattr(tv, n) for n in names)
+    f = frame(i)
+    try:
+        v = Validation(f, area_for(f), "c", True, SNAP_THRESHOLD=T)
+        out = v.run_validation(choose_validators=chosen)
+        again = Validation(out.copy(), area_for(f), "c2", True, SNAP_THRESHOLD=T).run_validation(choose_validators=chosen)
+        rerun = v.run_validation(choose_validators=chosen)
+        return canon(out), canon(again), canon(rerun)
+    except Exception as e:
+        return f"{type(e).__name__}: {str(e)[:160]}"
+
+
+def s13_chosen(ctx):
+    """idempotence with CHOSEN validators: a subset that contains the fixing validator and a validator that needs node sets makes the first pass fill the object's caches"""
+    res = StreamResult("S13-chosen", rule="every frame of the pool x 5 chosen validator subsets (the fixing GeomTypeValidator together with node / snap validators; node validators alone), "
+                       "allow_fix: validate, validate the OUTPUT again with the same subset, re-run the first object -- all three must report the same errors and geometries "
+                       "(exhaustive over pool x subsets, each case in a fresh process); non-trivial = the first result has an error")
+    args = [(i, names) for i in range(len(POOL)) for _, names in CHOSEN]
+    with mp.get_context("fork").Pool(16, maxtasksperchild=1) as pool:
+        outs = pool.map(chosen_case, args, chunksize=1)
+    for (i, names), o in zip(args, outs):
+        res.evaluations += 1
+        case = {"stream": "S13-chosen", "frame": POOL[i][0], "frame_index": i, "validators": names}
+        if isinstance(o, str):
+            res.disagreements.append(Disagreement("S13-chosen", case, "completes", o, True, "validation with chosen validators raised"))
+            continue
+        first, again, rerun = o
+        if any(e for e, _ in first):
+            res.nontrivial += 1
+        if again != first:
+            res.disagreements.append(Disagreement("S13-chosen", case, first, again, True,
+                                                  f"validating the validated output again (validators {names}) reports other errors than the first validation of frame {POOL[i][0]!r}"))
+        elif rerun != first:
+            res.disagreements.append(Disagreement("S13-chosen", case, first, rerun, True, f"re-running the same object (validators {names}) reports other errors"))
+    res.samples = [{"frames": [p_[0] for p_ in POOL], "subsets": [c_[0] for c_ in CHOSEN]}]
+    return res
+
+
+STREAMS = [s13_histories, s13_chosen, s13_generated]
 
 
 def replay(ctx, stream, case):
+    if stream == "S13-chosen":
+        with mp.get_context("fork").Pool(1, maxtasksperchild=1) as pool:
+            o = pool.map(chosen_case, [(case["frame_index"], case["validators"])], chunksize=1)[0]
+        if isinstance(o, str):
+            return Disagreement(stream, case, "completes", o, True, "raised")
+        first, again, rerun = o
+        return None if (again == first and rerun == first) else Disagreement(stream, case, first, again if again != first else rerun, True, "re-validation with chosen validators differs")
     if stream == "S13-generated":
         r = s13_generated(ctx)
         return r.disagreements[0] if r.disagreements else None
